@@ -316,7 +316,8 @@ pub fn rename_keywords(field_name: &str) -> &str {
         "break" => "r#break",
         "override" => "r#override",
         "continue" => "r#continue",
-        "crate" => "r#crate",
+        // `crate`, `self` and `super` can not be raw identifiers
+        "crate" => "crate_",
         "else" => "r#else",
         "enum" => "r#enum",
         "extern" => "r#extern",
@@ -336,7 +337,31 @@ pub fn rename_keywords(field_name: &str) -> &str {
         "pub" => "r#pub",
         "ref" => "r#ref",
         "return" => "r#return",
-        "self" => "r#self",
+        "self" => "self_",
+        "super" => "super_",
+        "const" => "r#const",
+        "static" => "r#static",
+        "struct" => "r#struct",
+        "trait" => "r#trait",
+        "unsafe" => "r#unsafe",
+        "use" => "r#use",
+        "while" => "r#while",
+        "async" => "r#async",
+        "await" => "r#await",
+        "dyn" => "r#dyn",
+        "abstract" => "r#abstract",
+        "become" => "r#become",
+        "box" => "r#box",
+        "do" => "r#do",
+        "final" => "r#final",
+        "macro" => "r#macro",
+        "priv" => "r#priv",
+        "typeof" => "r#typeof",
+        "unsized" => "r#unsized",
+        "virtual" => "r#virtual",
+        "yield" => "r#yield",
+        "try" => "r#try",
+        "gen" => "r#gen",
         _ => field_name,
     }
 }
